@@ -418,6 +418,11 @@ func (b *bitstream) ReadAnnotations(symbolTable SymbolTable) ([]SymbolToken, err
 			b.pos - lengthOfAnnotFieldLength}
 	}
 
+	if annotFieldLength >= b.len-lengthOfAnnotFieldLength {
+		// The annotations alone fill or exceed the wrapper (the subtraction below is unsigned).
+		return nil, &SyntaxError{"malformed annotation", b.pos - lengthOfAnnotFieldLength}
+	}
+
 	remainingAnnotationLength := b.len - lengthOfAnnotFieldLength - annotFieldLength
 
 	if remainingAnnotationLength <= 0 {
